@@ -8,7 +8,7 @@ import tempfile
 import zlib
 
 KEY = "k"
-NAMES = ["a", "d/b"]
+NAMES = ["a", "d/b.x", "d/b.y"]
 CHUNKS = [[0, 2, 0, 2, 0, 1], [2, 3, 0, 2, 0, 1]]
 CFGS = [{"flat": f, "gzip": g} for f in (False, True) for g in (False, True)]
 
